@@ -384,7 +384,7 @@ Section ProcessDom.
                Ok (match r with Some x => x :: rs | None => rs end)
              end) in
       do inls <- (if use_doc_css then inline_styles attrs else Ok []);
-      do computed <- computed_style sd me inls;
+      let computed := computed_style sd me inls in
       match ws_val (c_display (cs_core computed)) with
       | Some _ => Ok None
       | None =>
